@@ -221,14 +221,14 @@ func (g *Gen) Next(st *GovState) *Op {
 		{pickW(1, 2), g.opWhite},
 		{pickW(4, 1), g.opSetPeerCost},
 		{pickW(5, 1), g.opSetFeePct},
-		{pickW(2, 4), g.opAddInitPos},
-		{pickW(2, 4), g.opReduceInitPos},
+		{pickW(3, 4), g.opAddInitPos},
+		{pickW(3, 4), g.opReduceInitPos},
 		{pickW(3, 2), g.opGlobalParam},
 		{pickW(4, 2), g.opGlobalParam2},
 		{pickW(6, 2), g.opWithdrawFee},
 		{pickW(1, 2), g.opWithdrawOng},
 		{pickW(3, 1), g.opGasAddress},
-		{pickW(1, 3), g.opTransferPenalty},
+		{pickW(2, 3), g.opTransferPenalty},
 		{1, g.opLegacyAdmin},
 		{1, g.opUpdateConfig},
 		{pickW(1, 2), g.opTransferFromVariant},
@@ -835,7 +835,7 @@ func (g *Gen) opTransferPenalty(st *GovState) *Op {
 	if g.Rng.Chance(30) {
 		to = g.W.Dapp
 	}
-	variant = g.maybeWrong(variant, 10)
+	variant = g.maybeWrong(variant, 25)
 	op := g.govOp(gov.TRANSFER_PENALTY, variant, fmt.Sprintf("%s -> %s", g.W.NodeName(pk), to.Name), &gov.TransferPenaltyParam{PeerPubkey: pk, Address: to.Addr()}, g.W.BK)
 	op.Addr, op.Peers = to.Addr(), []string{pk}
 	return op
@@ -907,7 +907,11 @@ func (g *Gen) opSetFeePct(st *GovState) *Op {
 }
 
 func (g *Gen) opAddInitPos(st *GovState) *Op {
-	pk, owner := g.ownedPeer(st, func(p *gov.PeerPoolItem) bool { return true })
+	// mostly peers with a promisePos record (registered after genesis): only their init pos can be reduced again
+	pk, owner := g.ownedPeer(st, func(p *gov.PeerPoolItem) bool { _, has := st.Promise[p.PeerPubkey]; return has && active(p) })
+	if owner == nil || g.Rng.Chance(40) {
+		pk, owner = g.ownedPeer(st, func(p *gov.PeerPoolItem) bool { return true })
+	}
 	if owner == nil {
 		return nil
 	}
